@@ -25,6 +25,8 @@ type txRecipe struct {
 	OLen      int
 	Big       string // which script gets BigLen bytes: "", in0.script, inL.script, in0.prev, out0.script, outL.script
 	BigLen    int
+	// NullIn0: input 0 spends the null outpoint (32 zero bytes, index 0xffffffff) as a coinbase does
+	NullIn0 bool `json:",omitempty"`
 }
 
 func (r txRecipe) build() *txref.Tx {
@@ -36,6 +38,9 @@ func (r txRecipe) build() *txref.Tx {
 		}
 		if r.PrevLen >= 0 {
 			in.PrevScript = fill(r.PrevLen, byte(0x30+i))
+		}
+		if r.NullIn0 && i == 0 {
+			in.TxID, in.Vout = make([]byte, 32), 0xffffffff
 		}
 		t.Ins = append(t.Ins, in)
 	}
@@ -377,7 +382,7 @@ func c01Concat(c c01ConcatCase) (fs []rep.Finding) {
 
 func init() {
 	p := register(&Prop{ID: "C01", Level: "exploration",
-		Rule: "exhaustive over: (1) product of shapes nIn,nOut in 0..3 x per-input {vout,seq in 3 values, script len 0/1/2/nil, prev value 2, prev script nil/empty/1} x per-output {4 values, len 0/1/2} x version,locktime in 7 boundary values each, plus one-dimension-at-a-time boundary cross (counts and script lengths 252,253,65535,65536); each through Bytes/ExtendedBytes/TxID/NewTxFromBytes/NewTxFromStream/ReadFrom/Clone against the reference codec; (2) every such serialisation with each length prefix (alone and in pairs) re-encoded in each wider class; (3) all strings <version>[marker]x with x of length<=8/9 (quick/thorough) over {00,01,02,EF,FD,FE,FF}; (4) all ordered pairs/triples of 12 serialisations x 0..2 trailing bytes through stream, reader and counted-list decoding with the count in every varint class, the list variable then parsing a shorter and an empty list. distinct_nontrivial = distinct serialisations/strings on which the library accepted",
+		Rule: "exhaustive over: (1) product of shapes nIn,nOut in 0..3 x per-input {vout,seq in 3 values, script len 0/1/2/nil, prev value 2, prev script nil/empty/1} x per-output {4 values, len 0/1/2} x version,locktime in 7 boundary values each, plus one-dimension-at-a-time boundary cross (counts and script lengths 252,253,65535,65536); each through Bytes/ExtendedBytes/TxID/NewTxFromBytes/NewTxFromStream/ReadFrom/Clone against the reference codec; (2) every such serialisation with each length prefix (alone and in pairs) re-encoded in each wider class; (2b) every truncation of those serialisations; (3) all strings <version>[marker]x with x of length<=8/9 (quick/thorough) over {00,01,02,EF,FD,FE,FF}; (4) all ordered pairs/triples of 12 serialisations x 0..2 trailing bytes through stream, reader and counted-list decoding with the count in every varint class, the list variable then parsing a shorter and an empty list. distinct_nontrivial = distinct serialisations/strings on which the library accepted",
 	})
 	spStruct := NewSpace(p, "struct", c01Struct)
 	spBytes := NewSpace(p, "bytes", c01Bytes)
@@ -505,6 +510,21 @@ func init() {
 							yield(c01BytesCase{Data: append(append([]byte(nil), m...), b[offs[k]+widths[k]:]...)})
 							yield(c01BytesCase{Data: append(append([]byte(nil), m...), 0, 0, 0, 0, 0, 0, 0, 0, 0, 0, 0, 0, 0)})
 						}
+					}
+				}
+			}
+		})
+		// ---- space 2a'': every truncation of every seed serialisation, and each followed by 1..4
+		// zero bytes (what the parser accepts of these must be a whole transaction)
+		sb.Each(r, func(yield func(c01BytesCase)) {
+			for _, t := range seeds {
+				for _, ext := range []bool{false, true} {
+					b := t.Bytes(ext)
+					for n := 0; n < len(b); n++ {
+						yield(c01BytesCase{Data: append([]byte(nil), b[:n]...)})
+					}
+					for z := 1; z <= 4; z++ {
+						yield(c01BytesCase{Data: append(append([]byte(nil), b...), make([]byte, z)...)})
 					}
 				}
 			}
